@@ -84,9 +84,14 @@ template <int N> void wvec(cvm::memory_stream &ms, size_t n, std::vector<unsigne
 { std::vector<blob<N> > v(n); if (n) memcpy((void *) v.data(), b.data(), n * N); ms.write_vector(v); }
 template <int N> std::string robj(cvm::memory_stream &ms)
 { blob<N> x; memset(x.b, 0xee, N); ms.read_object(x); return ms ? "B:" + tohex(x.b, N) : "N"; }
+static long g_case = 0;   // case counter: the reused destinations are reset (to three 0xee elements) at every case
 template <int N> std::string rvec(cvm::memory_stream &ms)
 {
-  std::vector<blob<N> > v;
+  // ONE destination per element size, reused by every vector read of the case and never empty to begin with:
+  // what is printed is what the destination holds after the read
+  static std::vector<blob<N> > v;
+  static long gen = -1;
+  if (gen != g_case) { v.assign(3, blob<N>()); memset((void *) v.data(), 0xee, 3 * N); gen = g_case; }
   ms.read_vector(v);
   if (!ms) return "N";
   return "V:" + cvm::to_str(v.size()) + ":" + tohex((unsigned char const *) v.data(), v.size() * N);
@@ -142,6 +147,7 @@ static std::string state_str(mstate &m)
 
 static void run_ms(std::vector<std::string> const &a)
 {
+  g_case++;
   mstate m;
   size_t mx = (a[0] == "default") ? (static_cast<size_t>(1L) << 36) : strtoull(a[0].c_str(), NULL, 10);
   m.ms = new cvm::memory_stream(mx);
@@ -217,9 +223,67 @@ template <typename T> static std::string rt_vec(std::vector<T> const &x)
     return o.str();
   }
   cvm::memory_stream is(os.length(), os.output_buffer());
-  std::vector<T> y; is >> y;
+  std::vector<T> y(x.size() + 2); memset((void *) y.data(), 0xee, y.size() * sizeof(T));   // a destination with previous contents
+  is >> y;
   if (!is) return "differ read-failed";
   if (y.size() != x.size() || (x.size() && memcmp(x.data(), y.data(), x.size() * sizeof(T)))) return "differ values";
+  return "same";
+}
+// several vectors of one type written one after the other (lengths given), read back into ONE reused destination
+template <typename T, typename MK> static std::string rt_vec_seq(std::vector<int> const &lens, MK mk)
+{
+  cvm::memory_stream os; os.internal_buffer_.reserve(CAP);
+  std::vector<std::vector<T> > xs;
+  int c = 0;
+  for (size_t i = 0; i < lens.size(); i++) { std::vector<T> x; for (int j = 0; j < lens[i]; j++) x.push_back(mk(++c)); xs.push_back(x); os << x; }
+  cvm::memory_stream is(os.length(), os.output_buffer());
+  std::vector<T> y(2); memset((void *) y.data(), 0xee, y.size() * sizeof(T));
+  for (size_t i = 0; i < xs.size(); i++) {
+    is >> y;
+    std::ostringstream o;
+    if (!is) { o << "differ read-failed at " << i; return o.str(); }
+    if (y.size() != xs[i].size() || (y.size() && memcmp(xs[i].data(), y.data(), y.size() * sizeof(T)))) {
+      o << "differ at vector " << i << " written length " << xs[i].size() << " read length " << y.size(); return o.str(); }
+  }
+  return "same";
+}
+static std::string rt_vector1d_seq(std::vector<int> const &lens, bool as_colvarvalue)
+{
+  cvm::memory_stream os; os.internal_buffer_.reserve(CAP);
+  std::vector<cvm::vector1d<cvm::real> > xs;
+  int c = 0;
+  for (size_t i = 0; i < lens.size(); i++) {
+    cvm::vector1d<cvm::real> x(lens[i]); for (int j = 0; j < lens[i]; j++) x[j] = 0.25 * (++c);
+    xs.push_back(x);
+    if (as_colvarvalue) { colvarvalue cvx(x, colvarvalue::type_vector); os << cvx; } else { os << x; }
+  }
+  cvm::memory_stream is(os.length(), os.output_buffer());
+  cvm::vector1d<cvm::real> y(2); y[0] = y[1] = -7.0;
+  colvarvalue cvy(y, colvarvalue::type_vector);
+  for (size_t i = 0; i < xs.size(); i++) {
+    if (as_colvarvalue) { is >> cvy; } else { is >> y; }
+    cvm::vector1d<cvm::real> const &got = as_colvarvalue ? cvy.vector1d_value : y;
+    std::ostringstream o;
+    if (!is) { o << "differ read-failed at " << i; return o.str(); }
+    bool ok = got.size() == xs[i].size();
+    for (size_t j = 0; ok && j < got.size(); j++) ok = (got[j] == xs[i][j]);
+    if (!ok) { o << "differ at vector " << i << " written length " << xs[i].size() << " read length " << got.size(); return o.str(); }
+  }
+  return "same";
+}
+static std::string rt_string_seq(std::vector<int> const &lens)
+{
+  cvm::memory_stream os; os.internal_buffer_.reserve(CAP);
+  std::vector<std::string> xs;
+  for (size_t i = 0; i < lens.size(); i++) { xs.push_back(std::string(lens[i], 'a' + (char) (i % 20))); os << xs.back(); }
+  cvm::memory_stream is(os.length(), os.output_buffer());
+  std::string y("previous contents");
+  for (size_t i = 0; i < xs.size(); i++) {
+    is >> y;
+    std::ostringstream o;
+    if (!is) { o << "differ read-failed at " << i; return o.str(); }
+    if (y != xs[i]) { o << "differ at string " << i << " written length " << xs[i].size() << " read length " << y.size(); return o.str(); }
+  }
   return "same";
 }
 
@@ -230,6 +294,20 @@ static void run_ty(std::vector<std::string> const &a)
   for (size_t i = 1; i < a.size(); i++) v.push_back(strtod(a[i].c_str(), NULL));
   while (v.size() < 4) v.push_back(0.0);
   std::string res = "?";
+  if (ty.compare(0, 4, "seq_") == 0) {
+    std::vector<int> lens; for (size_t i = 1; i < a.size(); i++) lens.push_back(atoi(a[i].c_str()));
+    if (ty == "seq_vec_double") res = rt_vec_seq<double>(lens, [](int c) { return 0.5 * c; });
+    else if (ty == "seq_vec_int") res = rt_vec_seq<int>(lens, [](int c) { return c; });
+    else if (ty == "seq_vec_size_t") res = rt_vec_seq<size_t>(lens, [](int c) { return (size_t) c; });
+    else if (ty == "seq_vec_float") res = rt_vec_seq<float>(lens, [](int c) { return 0.5f * c; });
+    else if (ty == "seq_vec_char") res = rt_vec_seq<char>(lens, [](int c) { return (char) ('a' + c % 26); });
+    else if (ty == "seq_vec_rvector") res = rt_vec_seq<cvm::rvector>(lens, [](int c) { return cvm::rvector(c, 0.5 * c, -c); });
+    else if (ty == "seq_vector1d") res = rt_vector1d_seq(lens, false);
+    else if (ty == "seq_colvarvalue_vector") res = rt_vector1d_seq(lens, true);
+    else if (ty == "seq_string") res = rt_string_seq(lens);
+    std::cout << res << "\n";
+    return;
+  }
   if (ty == "double") res = rt_pod<double>(v[0]) ? "same" : "differ";
   else if (ty == "int") res = rt_pod<int>((int) v[0]) ? "same" : "differ";
   else if (ty == "size_t") res = rt_pod<size_t>((size_t) v[0]) ? "same" : "differ";
